@@ -40,11 +40,11 @@ TWINS = {
 
 # batches that are wired into checks (a batch under construction is simply not listed here yet)
 READY = ['core', 'eslice', 'op_eval', 'cfi_lookup', 'cfi_uctx', 'cfi_uctx_link', 'line_hdr', 'attrs', 'units', 'dwarf_ranges', 'index', 'relocate',
-         'conv', 'filter', 'wcore', 'wreloc', 'wop', 'wlists', 'wunit', 'wunit_layout', 'wcfi', 'wline', 'wline_insn', 'leb', 'macros', 'names', 'bases', 'wabbrev', 'filter_reserve', 'wline_prog', 'conv_attrs', 'conv_expr', 'wlists_add', 'wunit_tree', 'dwp', 'wunit_table']
+         'conv', 'filter', 'wcore', 'wreloc', 'wop', 'wlists', 'wunit', 'wunit_layout', 'wcfi', 'wline', 'wline_insn', 'leb', 'macros', 'names', 'bases', 'wabbrev', 'filter_reserve', 'wline_prog', 'conv_attrs', 'conv_expr', 'wlists_add', 'wunit_tree', 'dwp', 'wunit_table', 'conv_line']
 # batch -> batches whose items it re-verifies completely (so the smaller one need not run as well)
 SUPERSEDES = {'wline_prog': ['wline_insn'], 'op_eval': ['op'], 'dwarf_ranges': ['lists'], 'cfi_uctx_link': ['cfi_unwind'], 'line_hdr': ['line'], 'cfi_lookup': ['cfi_entries']}
 # tags that only quote another property's vocabulary inside a batch (not obligations of that property)
-IGNORE = {('line_hdr', 'C03'), ('wline', 'C12'), ('filter', 'C01'), ('filter', 'C07'), ('wunit', 'C03'), ('wunit', 'C15'), ('conv', 'C05'), ('index', 'C09'), ('macros', 'C10'), ('names', 'C10'), ('wunit_layout', 'C16'), ('bases', 'C10'), ('wabbrev', 'C02'), ('filter_reserve', 'C02'), ('conv_attrs', 'C19'), ('conv_expr', 'C07'), ('dwp', 'C10'), ('wunit_table', 'C15')}
+IGNORE = {('line_hdr', 'C03'), ('wline', 'C12'), ('filter', 'C01'), ('filter', 'C07'), ('wunit', 'C03'), ('wunit', 'C15'), ('conv', 'C05'), ('index', 'C09'), ('macros', 'C10'), ('names', 'C10'), ('wunit_layout', 'C16'), ('bases', 'C10'), ('wabbrev', 'C02'), ('filter_reserve', 'C02'), ('conv_attrs', 'C19'), ('conv_expr', 'C07'), ('dwp', 'C10'), ('wunit_table', 'C15'), ('conv_line', 'C01'), ('conv_line', 'C04'), ('conv_line', 'C10'), ('conv_line', 'C20'), ('conv_line', 'C03'), ('conv_line', 'C09')}
 
 ND = {
     'C01': 'entry points not extracted (MacroString::string, Dwarf/DwarfSections loaders, DwarfPackage::load, ConvertUnit::convert*), stack depth '
@@ -66,7 +66,7 @@ ND = {
            'checks; positional clauses of EndianSlice are discharged by Kani on bounded buffers only.',
     'C11': 'the head of UnitTable::write (unit loop; its fix-up tail is decided in batch wunit_table), DebuggingInformationEntry::{set, delete, delete_child, get} (closures: assumed contracts), Unit::new, AbbreviationTable::add de-duplication, StringTable, LineStringTable (IndexSet/IndexMap), Dwarf::write section order, and the end-to-end '
            'statement "reads back as the same forest": only the size model and per-kind emission are decided.',
-    'C12': 'ConvertUnit::{convert, convert_attributes, read_entry, add_entry} (that every attribute is fed through convert_attribute_value, decided in batch conv_attrs, and stored under the same name), the two loops of Expression::from (operation order, the offsets table; the per-operation match is decided in batch conv_expr), ConvertLineProgram (needs the whole reader-side line machine), idempotence '
+    'C12': 'ConvertUnit::{convert, convert_attributes, read_entry, add_entry} (that every attribute is fed through convert_attribute_value, decided in batch conv_attrs, and stored under the same name), the two loops of Expression::from (operation order, the offsets table; the per-operation match is decided in batch conv_expr), ConvertLineProgram::{new, convert_row, convert_file, read_sequence, convert} (the tombstone / pending-address discipline is decided in batch conv_line; the content of a converted Row and finding F11 are not), idempotence '
            'of a second conversion, corpus round trips.',
     'C13': 'LineProgram::write header/tables/FileInfo emission and the two length patches (closure + IndexMap; only a syntactic check that they use the program\'s own encoding), add_file/add_directory identity (IndexMap).',
     'C14': 'CIE de-duplication (IndexSet), whole-table round trip.',
